@@ -25,6 +25,7 @@ import (
 	v1 "k8s.io/api/core/v1"
 	apierrors "k8s.io/apimachinery/pkg/api/errors"
 	metav1 "k8s.io/apimachinery/pkg/apis/meta/v1"
+	"k8s.io/apimachinery/pkg/fields"
 	"k8s.io/apimachinery/pkg/labels"
 	"k8s.io/apimachinery/pkg/runtime/schema"
 	"k8s.io/client-go/kubernetes/fake"
@@ -92,6 +93,7 @@ type K8sSim struct {
 	*fake.Clientset
 	rec   *Recorder
 	store map[string]*v1.Node
+	pods  []*v1.Pod // what the API server knows about pods (the truth, not the listers' snapshot)
 }
 
 func newK8sSim(rec *Recorder) *K8sSim {
@@ -182,6 +184,71 @@ func (n *nodeSim) Delete(ctx context.Context, name string, opts metav1.DeleteOpt
 	n.k.rec.record(cDeleteNode(name), true, rOk())
 	delete(n.k.store, name)
 	return nil
+}
+
+// Reads the controller does not make today, answered from the same truth (not journalled: a read changes nothing). A fake
+// API that knows no pods and lists no nodes would hide what code that starts asking the API server directly does with
+// the answers.
+
+func (n *nodeSim) List(ctx context.Context, opts metav1.ListOptions) (*v1.NodeList, error) {
+	names := []string{}
+	for k := range n.k.store {
+		names = append(names, k)
+	}
+	sort.Strings(names)
+	sel, err := labels.Parse(opts.LabelSelector)
+	if err != nil {
+		return nil, err
+	}
+	out := &v1.NodeList{}
+	for _, k := range names {
+		if sel.Matches(labels.Set(n.k.store[k].Labels)) {
+			out.Items = append(out.Items, *n.k.store[k].DeepCopy())
+		}
+	}
+	return out, nil
+}
+
+func (c *coreSim) Pods(ns string) corev1.PodInterface {
+	return &podSim{c.CoreV1Interface.Pods(ns), c.k, ns}
+}
+
+type podSim struct {
+	corev1.PodInterface
+	k  *K8sSim
+	ns string
+}
+
+func (p *podSim) List(ctx context.Context, opts metav1.ListOptions) (*v1.PodList, error) {
+	sel, err := labels.Parse(opts.LabelSelector)
+	if err != nil {
+		return nil, err
+	}
+	fsel, err := fields.ParseSelector(opts.FieldSelector)
+	if err != nil {
+		return nil, err
+	}
+	out := &v1.PodList{}
+	for _, pod := range p.k.pods {
+		if p.ns != "" && pod.Namespace != p.ns {
+			continue
+		}
+		fs := fields.Set{"metadata.name": pod.Name, "metadata.namespace": pod.Namespace, "spec.nodeName": pod.Spec.NodeName,
+			"status.phase": string(pod.Status.Phase), "spec.schedulerName": pod.Spec.SchedulerName, "spec.restartPolicy": string(pod.Spec.RestartPolicy)}
+		if sel.Matches(labels.Set(pod.Labels)) && fsel.Matches(fs) {
+			out.Items = append(out.Items, *pod.DeepCopy())
+		}
+	}
+	return out, nil
+}
+
+func (p *podSim) Get(ctx context.Context, name string, opts metav1.GetOptions) (*v1.Pod, error) {
+	for _, pod := range p.k.pods {
+		if pod.Name == name && (p.ns == "" || pod.Namespace == p.ns) {
+			return pod.DeepCopy(), nil
+		}
+	}
+	return nil, apierrors.NewNotFound(schema.GroupResource{Resource: "pods"}, name)
 }
 
 // Listers: return the snapshot the harness installed, in the installed order.
